@@ -34,6 +34,13 @@ def write_templates(W, lens, sym_int):
     for v in sorted(set(x for x in vals if -smax <= x <= smax)):
         T('int-const-%d' % v, "empty @is_you() { int[] arr = [5, 6]; write(%s); write(' '); writeln(%s); sleep(arr[1]); }\n" % ('(%d)' % v, '(%d)' % v))
     T('int-const-min', "empty @is_you() { int[] arr = [5, 6]; write(-%d - 1); writeln(-%d - 1); sleep(arr[1]); }\n" % (smax, smax))
+    # integer constants in every spelling (a character constant used as an int prints its code, not its spelling) and literals outside the
+    # signed word range (the word the program holds is printed)
+    T('int-const-spellings', "const int NL = '\\n';\nconst int KC = 'K';\nconst byte KB = 'k';\nempty @is_you() { write('A' is int); write(' '); writeln(NL); write(KC); write(' '); write(KB is int); write(' '); write(0x41); write(' '); "
+      "write(0b101); write(' '); write(0o17); write(' '); write(1_000); write(' '); write(('a' is int) + 1); write(' '); write(-('A' is int)); write(' '); write(+'\\'' is int); write(' '); write('\\\\' is int); write(' '); "
+      "write('\\0' is int); write(' '); write(\"s\"[0] is int); write(' '); write(true is int); write(' '); writeln('\\xff' is int); }\n")
+    for v in (smax + 1, 2 * smax + 1, 2 * smax + 7, smax + 1000):
+        T('int-const-wrapped-%d' % v, "empty @is_you() { write(%d); write(' '); writeln(%d); write(0 - %d); }\n" % (v, v, v))
     T('int-var-min', "empty @is_you(int x) { int m = -%d; m -= 1; write(m); write(x is byte); }\n" % smax)
     T('bool', "empty @is_you(int x) { write(x > 0); write(' '); writeln(x == 0); write(x is bool); }\n")
     T('bool-caller', "empty @is_you(int x, int y) { int a = y; bool[] fl = [true, x > 0, false]; write(fl[1]); sleep(a); write(fl[0]); write(fl[2]); }\n")
